@@ -1414,3 +1414,21 @@ async fn d36_stale_wal_cleanup_task_deletes_the_active_segment_after_restore() {
 	assert_eq!(t2.begin().unwrap().get(b"after-restore").unwrap().as_deref(), Some(&b"acknowledged"[..]),
 		"D36: the commit acknowledged after the restore is gone (its WAL segment was deleted by a clean-up task of the discarded timeline)");
 }
+
+// D37: a transaction may hold several pending versions of one key (explicit timestamps); commit writes them all.  get_at()
+// looks only at the LAST issued one: a time-travel read inside the transaction ignores an older pending version that is the
+// right answer, or returns a pending version although a newer pending one is <= T.
+#[tokio::test(flavor = "multi_thread")]
+async fn d37_get_at_ignores_all_but_the_last_pending_version() {
+	let d = td();
+	let opts = mk_opts(d.path().to_path_buf(), |o| { o.enable_versioning = true; o.enable_vlog = true; o.vlog_value_threshold = 0; });
+	let tree = Tree::new(Arc::clone(&opts)).unwrap();
+	let mut tx = tree.begin().unwrap();
+	tx.set_at(b"k", b"v10", 10).unwrap();
+	tx.set_at(b"k", b"v20", 20).unwrap();
+	let inside = tx.get_at(b"k", 15).unwrap();
+	tx.commit().await.unwrap();
+	let after = tree.begin().unwrap().get_at(b"k", 15).unwrap();
+	assert_eq!(after.as_deref(), Some(&b"v10"[..]), "precondition: after commit the version at ts 15 is v10");
+	assert_eq!(inside, after, "D37: get_at(k, 15) inside the transaction does not reflect its own pending version @10");
+}
